@@ -21,6 +21,7 @@ CHECKER = "./bin/check C07 (pyvc on esr/fitting/test_all_Fisher.py::convert_para
 
 
 def check(run):
+    D.lemma_library(run)
     st, failed, eng = D.verify_function(run, "fitting/test_all_Fisher.py", "convert_params", c_fisher.fisher_region_contract, timeout_ms=8000,
                                         note="region 'snapping and code length' only; Hessian computation and retry logic are not under contract")
     if D.canary(run, "fitting/test_all_Fisher.py", "convert_params", c_fisher.fisher_region_contract) is False:
